@@ -608,7 +608,7 @@ GGetEvents ==
   \E id \in R(LET nonempty == {subs[k].id : k \in {kk \in DOMAIN hist : hist[kk] # <<>>}}
               IN IF nonempty # {} /\ full # 1 THEN nonempty
                  ELSE IF DOMAIN hist # {} THEN {subs[k].id : k \in DOMAIN hist} \cup {NextId(used.sub) + 3} ELSE SubArgs) :
-  \E kind \in W(<<1, 2, 3, 4, 5, 6, 7, 8, 9, 10, 11, 12, 12, 13, 13, 14, 14, 15, 15, 16, 17, 18, 19, 20, 21, 21, 22, 22, 23, 24>>), t \in R(EntryTimes), dt \in R({-1, 0, 1}), lim \in R(1..3), pick \in R(1..4) :
+  \E kind \in W(<<1, 2, 3, 4, 5, 6, 7, 8, 9, 10, 11, 12, 12, 13, 13, 14, 14, 15, 15, 16, 17, 18, 19, 20, 21, 21, 21, 22, 22, 22, 23, 23, 24, 24>>), t \in R(EntryTimes), dt \in R({-1, 0, 1}), lim \in R(1..3), pick \in R(1..4) :
   \E pb \in R(IF HistPubs # {} /\ pick # 1 THEN HistPubs ELSE PubArgs), pb2 \in R(IF HistPubs # {} /\ pick # 1 THEN HistPubs ELSE PubArgs),
      u \in R(IF HistTopics # {} /\ pick # 2 THEN HistTopics ELSE Targets) :
     LET tt == IF t + dt > 0 THEN t + dt ELSE 1
